@@ -1,15 +1,18 @@
 #!/bin/bash
-# tools_seedrun.sh <seed-id> [props...] : apply a seeded change to /repo, run the checks, undo it.
+# tools_seedrun.sh <seed-id> [props...] : apply a seeded change to the repository, run the checks, undo it.
+# The repository is $VERIF_REPO (default /repo); the checks are the ones next to this script.
+here=$(cd "$(dirname "$0")" && pwd)
+repo=${VERIF_REPO:-/repo}
 s=$1; shift
 props="$@"
-d=/verif/seeded/$s
+d=$here/seeded/$s
 [ -z "$props" ] && props=$(python3 -c "import json;print(json.load(open('$d/meta.json'))['breaks'])")
-cd /repo && git status --short | grep -q . && { echo "repo dirty"; exit 2; }
-git -C /repo apply $d/patch.diff || { echo "APPLY-FAIL $s"; exit 2; }
+git -C $repo status --short | grep -q . && { echo "repo dirty"; exit 2; }
+git -C $repo apply $d/patch.diff || { echo "APPLY-FAIL $s"; exit 2; }
 for p in $props; do
-  out=$(cd /verif && ./check $p --tier quick 2>&1); rc=$?
+  out=$(cd $here && ./check $p --tier quick 2>&1); rc=$?
   n=$(echo "$out" | grep -c "^VIOLATION")
   echo "SEED $s check=$p exit=$rc violations=$n"
-  echo "$out" | grep "^\[check\]   " | head -3
+  echo "$out" | grep "^\[check\]   " | head -4
 done
-git -C /repo checkout -- .
+git -C $repo checkout -- .
